@@ -1,7 +1,7 @@
 (* C04 — Nothing is served past its lifetime; composed answers inherit the
    shortest part.  Property theorems over the model (Model.v), each proved in
    Proofs*.v; non-trivial instances are in Proofs_Examples.v. *)
-From Sdns Require Import Common.Base Gen.C04 C04.Model C04.Run C04.Proofs C04.Proofs_Store C04.Proofs_Tree C04.Proofs_Index.
+From Sdns Require Import Common.Base Gen.C04 C04.Model C04.Run C04.Proofs C04.Proofs_Store C04.Proofs_Tree C04.Proofs_Index C04.Proofs_Dns64.
 Open Scope Z_scope.
 
 (* In every history of client queries (hits on any route, alias chases through
@@ -138,6 +138,42 @@ Theorem proof_no_floor :
     /\ (forall c, cut = Some c -> ex <= c).
 Proof. exact proof_expiry_no_floor. Qed.
 
+(* DNS64 above the cache (middleware/dns64 synthesise, as repaired by af44539):
+   a synthesised AAAA is composed from the AAAA answer, the alias pieces of the
+   A chase and the address answer, each a cache hit or fresh from downstream.
+   For every clock reading and every such composition: the synthesised TTL is
+   inside what is left of EVERY consulted piece's deadline (a cached piece's
+   remaining lifetime, a fresh piece's delegation lease) -- also of a cached
+   NODATA that carries no record at all --, never above the RFC 6147 5.1.7
+   value (negative TTL or 600 s, every address record), not negative, and
+   unchanged when nothing consulted reports a deadline. *)
+Theorem dns64_composed_inherits_min :
+  forall neg addrs consulted now,
+    (forall p d, In p consulted -> piece_fold p = Some d ->
+       dns64_ttl neg addrs consulted now * second <= Z.max 0 (d - now))
+    /\ (forall e, In (PHit e) consulted ->
+          dns64_ttl neg addrs consulted now * second <= Z.max 0 (remaining e now)
+          /\ (now < entry_end e -> dns64_ttl neg addrs consulted now * second <= entry_end e - now))
+    /\ dns64_ttl neg addrs consulted now <= dns64_rfc_ttl neg addrs now
+    /\ dns64_rfc_ttl neg addrs now <= dns64_neg neg now
+    /\ (forall p, In p addrs -> dns64_rfc_ttl neg addrs now <= piece_ttl p now)
+    /\ (0 <= dns64_neg neg now -> (forall p, In p addrs -> 0 <= piece_ttl p now) ->
+          0 <= dns64_ttl neg addrs consulted now)
+    /\ ((forall p, In p consulted -> piece_fold p = None) ->
+          dns64_ttl neg addrs consulted now = dns64_rfc_ttl neg addrs now).
+Proof. exact dns64_inherits_min_all. Qed.
+(* the cap is necessary: the RFC 6147 value alone (the code before af44539)
+   outlives a cached SOA-less NODATA held for the 5 s floor (600 s handed out
+   with 3 s left); the repaired TTL is 3 *)
+Theorem dns64_rfc_ttl_alone_refuted :
+  let now := 2 * second in
+  let addrs := [PFresh 3600 None] in
+  let consulted := PHit bare_nodata :: addrs in
+  now < entry_end bare_nodata
+  /\ dns64_rfc_ttl None addrs now * second > remaining bare_nodata now
+  /\ dns64_ttl None addrs consulted now = 3.
+Proof. exact dns64_rfc_alone_outlives_piece. Qed.
+
 Print Assumptions no_service_past_end.
 Print Assumptions cut_no_service_past_end.
 Print Assumptions proof_no_service_past_end.
@@ -152,3 +188,5 @@ Print Assumptions late_prefetch_never_overwrites.
 Print Assumptions admit_ttl_bounds.
 Print Assumptions cut_no_floor.
 Print Assumptions proof_no_floor.
+Print Assumptions dns64_composed_inherits_min.
+Print Assumptions dns64_rfc_ttl_alone_refuted.
